@@ -20,8 +20,8 @@ func init() {
 			c.guard("SEQ.GEN", s.ruleGenHist)
 			c.guard("SEQ.LAZY", s.ruleLazyIters)
 			c.keep(func(o Obligation) bool {
-				if o.Rule == "SEQ.GEN" { // iterating a term = advancing and reading its result; Send/Current are C09's
-					return strings.HasPrefix(o.Construct, "MoveNext") || strings.HasPrefix(o.Construct, "Result") || o.Construct == "coverage"
+				if o.Rule == "SEQ.GEN" { // iterating a term = advancing (BindRecv terms: with a sent value) and reading its result; Current is C09's
+					return strings.HasPrefix(o.Construct, "MoveNext") || strings.HasPrefix(o.Construct, "Send") || strings.HasPrefix(o.Construct, "Result") || o.Construct == "coverage"
 				}
 				return true
 			})
